@@ -21,3 +21,20 @@ Proof.
   - apply impl_equals_spec_scoping; auto.
   - destruct e; try discriminate Hc; reflexivity.
 Qed.
+
+(* the same against the strongest C03 statement (round 5: all classes, calls of pure callees
+   included; plan_ok4).  A comparable reference ending is neither fuel nor a panic, so none of
+   the endings C03 leaves out can occur. *)
+Lemma eval_refines_spec_all_classes : forall eps fuel p ss fs o e,
+  lexical p = true ->
+  run_spec eps fuel p = (o, e) -> comparable e = true ->
+  v_checked (x_main (plan_ok4 p ss fs)) = true ->
+  x_checked (plan_ok4 p ss fs) = true ->
+  x_residual (plan_ok4 p ss fs) = ([], []) ->
+  run_impl (Some (ss, fs)) eps fuel p = (o, ending_of e).
+Proof.
+  intros eps fuel p ss fs o e Hl Hr Hc H1 H2 H3.
+  apply prune_sound_five_classes_lemma; auto.
+  - apply impl_equals_spec_scoping; auto.
+  - destruct e; try discriminate Hc; reflexivity.
+Qed.
